@@ -46,6 +46,7 @@ def main():
     ap.add_argument('--only')
     ap.add_argument('--all-props', action='store_true', help='also run every other property check (false-alarm/attribution view)')
     ap.add_argument('--runs', type=int)
+    ap.add_argument('--save-corpus', action='store_true', help='file the minimised history of every catch under regressions/corpus/ (after confirming that it passes on /repo itself)')
     ap.add_argument('--no-corpus', action='store_true', help='do not replay the regression corpus: shows what the seeded search alone finds')
     args = ap.parse_args()
     from_props = ['C01', 'C03', 'C04', 'C05', 'C06', 'C07', 'C08', 'C09', 'C11', 'C12', 'C13', 'C15', 'C16', 'C17']
@@ -79,6 +80,18 @@ def main():
                 rc, out = run(cmd, cwd=ROOT, env=env)
                 if rc == 1 and 'VIOLATION property=%s' % prop in out:
                     caught.append(prop)
+                    rp = re.search(r'VIOLATION property=\S+ replay=(\S+)', out)
+                    if args.save_corpus and prop == it['prop'] and rp and os.path.exists(rp.group(1)) and 'sweep' not in rp.group(1) \
+                            and '/regressions/' not in rp.group(1):
+                        rc2, out2 = run([PY, '-B', '-m', 'sim.check', '--replay', rp.group(1), '--quiet'], cwd=ROOT,
+                                        env=dict(os.environ, VERIF_REPO='/repo'))
+                        if rc2 == 0:
+                            dstdir = os.path.join(ROOT, 'regressions', 'corpus')
+                            os.makedirs(dstdir, exist_ok=True)
+                            doc = json.load(open(rp.group(1)))
+                            doc['note'] = 'history that exposed %s (%s); passes on the unchanged tree' % (it['id'], it['name'][:80])
+                            doc['violation'] = None
+                            json.dump(doc, open(os.path.join(dstdir, '%s.json' % it['id']), 'w'), indent=1, sort_keys=True)
                     if prop == it['prop']:
                         m = re.search(r'violation: property=\S+ predicate=(\S+) run_index=(-?\d+) ops=(\d+)', out)
                         m2 = re.search(r'regression witness fails again: (\S+) predicate=(\S+)', out)
